@@ -1654,6 +1654,8 @@ def max(*s):
         except: 
             # maybe s[0] is a list or tuple of variables, functions
             # and constants
+            if len(s) != 1 or (type(s[0]) is not list and 
+                type(s[0]) is not tuple): raise NotImplementedError
             try: return max(*s[0])
             except: raise NotImplementedError
 
@@ -1693,6 +1695,8 @@ def min(*s):
         except:
             # maybe s[0] is a list or tuple of variables, functions
             # and constants
+            if len(s) != 1 or (type(s[0]) is not list and 
+                type(s[0]) is not tuple): raise NotImplementedError
             try: return min(*s[0])
             except: raise NotImplementedError
 
